@@ -125,6 +125,14 @@ impl<'a> WorkerState<'a> {
 				}
 				Ok(info)
 			}
+			Err(f) if f.oracle == "inconclusive" => {
+				// the harness could not establish the case's preconditions (e.g. a helper thread
+				// was not scheduled in time): not a verdict about the code
+				if self.res.inconclusive.len() < 5 {
+					self.res.inconclusive.push(f.detail.clone());
+				}
+				Ok(CaseInfo::default())
+			}
 			Err(f) => {
 				if self.is_known(&f) {
 					if count {
